@@ -110,6 +110,7 @@ class Gen:
         self.in_loop = 0
         self.no_jump_cross = 0                # inside comprehension body: no break/continue/return
         self.uncertain = 0                    # inside a branch that may not run: definitions are not callable later
+        self.in_comp_iter = 0                 # inside a comprehension iterable: no assignment expression (PEP 572)
 
     def k(self):
         return next(self.ids)
@@ -173,7 +174,7 @@ class Gen:
             return self.logged(sub) if rng.random() < 0.5 else sub
         choices = [
             ("leaf", 2), ("L", 4), ("stmtwrap", 4), ("bin", 3), ("F", 3), ("if", 3),
-            ("do", 2), ("andor", 2), ("setx", 1 if self.assignable else 0), ("let", 2), ("callfn", 2), ("cmp", 1),
+            ("do", 2), ("andor", 2), ("setx", 1 if self.assignable and not self.in_comp_iter else 0), ("let", 2), ("callfn", 2), ("cmp", 1),
             ("get", 1), ("sum", 2), ("with", 2), ("try", 2), ("cond", 1), ("not", 1),
             ("raise", 1), ("fncall_stored", 1 if self.fns else 0),
             ("return", 1 if self.in_fn and not self.no_jump_cross else 0),
@@ -396,10 +397,12 @@ class Gen:
         x = f"c{next(self.tmp)}"
         saved_assignable = self.assignable
         self.assignable = []        # PEP 572: no assignment expression in a comprehension iterable
+        self.in_comp_iter += 1      # ... not even inside a function nested in it
         try:
             it, eit = self.iterable(d)
         finally:
             self.assignable = saved_assignable
+            self.in_comp_iter -= 1
         saved = (list(self.scope_vars), list(self.assignable), self.in_loop)
         self.scope_vars.append(x)
         self.assignable = []        # no setx/setv to outer names inside comprehension (C04's subject)
@@ -510,10 +513,10 @@ class Gen:
         cond, ec = None, eff()
         self.scope_vars.append(x)
         try:
-            if rng.random() < 0.3:
-                cond, ec = self.int_expr(d + 1)
-            self.in_loop += 1
+            self.in_loop += 1      # the :if clause runs inside the loop: break/continue there aim at it
             try:
+                if rng.random() < 0.3:
+                    cond, ec = self.int_expr(d + 1)
                 body, eb = self.seq([lambda: self.stmt_form(d)] * rng.randint(1, 3))
             finally:
                 self.in_loop -= 1
@@ -1034,9 +1037,10 @@ class Interp:
             broke = False
             for x in it:
                 env.assign(n["x"], x)
-                if n["if"] is not None and not self.ev(n["if"], env, tr):
-                    continue
                 try:
+                    # the :if clause is part of the loop body (for x in it: if cond: body)
+                    if n["if"] is not None and not self.ev(n["if"], env, tr):
+                        continue
                     self.body(n["b"], env, tr)
                 except Jump as j:
                     if j.kind == "break":
